@@ -165,6 +165,12 @@ C13(z) ==
           c \in Clock, o \in {0, 60, -60, 3600, -19800, 86340, -86340}, pr \in {0, 2, 3, 6, 9}}
 
 \* ---- C14: families expanded by the harness --------------------------------------------------
+\* dates at the two ends of the supported range read together with a zone that moves the instant out of it
+EdgeDates == {<<"5","8","7","9","6","1","1","-","0","7","-","1","2">>, <<"-","5","8","7","9","6","1","1","-","0","6","-","2","3">>, <<"5","8","7","9","6","1","1","-","0","7","-","1","1">>, <<"-","5","8","7","9","6","1","1","-","0","6","-","2","4">>, <<"2","0","2","2","-","0","5","-","0","2">>}
+EdgeTimes == {<<"2","3",":","5","9",":","5","9">>, <<"0","0",":","0","0",":","0","0">>, <<"1","2",":","0","0",":","0","0">>}
+EdgeZones == {<<"+","0","0",":","0","0">>, <<"-","0","0",":","0","1">>, <<"-","0","1",":","0","0">>, <<"+","0","1",":","0","0">>, <<"+","2","3",":","5","9">>, <<"-","2","3",":","5","9">>}
+EdgeZoneCases == {[op |-> "parse_any", ty |-> "dt", s |-> d \o <<" ">> \o t \o <<" ">> \o zz, p |-> <<"y","y","y","y","-","M","M","-","d","d"," ","H","H",":","m","m",":","s","s"," ","x","x","x">>] :
+                    d \in EdgeDates, t \in EdgeTimes, zz \in EdgeZones}
 HostileAlphabet == <<"0", "7", "-", "+", "a", "Z", ":", "é", "日">>
 C14(z) ==
   {[op |-> "family_symbol", ty |-> ty, sym |-> Symbols[i], w |-> w, alphabet |-> HostileAlphabet, maxlen |-> IF Thorough THEN 5 ELSE 3] :
@@ -181,6 +187,10 @@ C14(z) ==
                             <<"*","/","0"," ","0","-","0"," ","1",",","*","/","0"," ","*"," ","7">>, <<"5","9"," ","2","3"," ","3","1"," ","1","2"," ","6">>} ELSE {})}
   \cup {[op |-> "family_fromstr", ty |-> ty, alphabet |-> HostileAlphabet, maxlen |-> IF Thorough THEN 5 ELSE 4] :
       ty \in (IF First THEN {"dt", "date", "time"} ELSE {})}
+  \* runs far longer than any field width (the pattern may have any length)
+  \cup {[op |-> "family_long", ty |-> ty, syms |-> Symbols \o <<"Q", "-", "'">>, lens |-> <<255, 256, 65535, 65536, 70001>>] :
+          ty \in (IF First THEN {"dt", "date", "time"} ELSE {})}
+  \cup (IF First THEN EdgeZoneCases ELSE {})
   \* field combinations (incl. the same field twice) read from texts whose digits are pushed to 9:
   \* the parsed fields may add up past the end of the day / month / range
   \cup {[op |-> "family_nines", ty |-> ty, p |-> p] : ty \in {"dt", "time", "date"}, p \in Pairs(z)}
